@@ -14,6 +14,19 @@ MC   : Fields.tla (what the round trip reader -> graph -> writer must preserve f
        min / max) must each violate their invariant.  The initial states of the run are the case lattice;
        harness/c11fields.py binds every case to real schema members (all builtin option tables, parsed from the
        generated schema classes), operators and tensors; the resulting networks are compiled like the others.
+MC   : Partition.tla also with CPU passes whose operator has TWO outputs (nout / second: a consumer reads the first output
+       or only the second one), N <= 3 quick / N <= 4 thorough; control Partition_FirstOut.cfg (the sink rule looks at the
+       first output only) must violate TopoOrder.  -simulate draws such graphs; second outputs feed NPU / CPU / memory-only
+       consumers in the compiled networks.  The chain Npu-Cpu-Npu-Npu is swept over (CPU-resident operator of an NPU type)
+       x (NPU operator the optimiser can fold into its producer).
+MC   : Fields.tla tensor cases = EVERY subset of {scale, zero point, min, max, quantised dimension, per-axis} on integer and
+       float tensors at every role (partial tables: scale without zero point ...); weight cases = constant weights of a
+       convolution kept on the CPU x command-line option that touches tensors (--force-symmetric-int-weights, --optimise
+       Size, --cpu-tensor-alignment) x zero / non-zero zero point x per tensor / per axis x int8 / int16 activations x
+       reason it is kept.  Controls: Fields_TableBoth (partial tables dropped), Fields_SharedQuant / Fields_ShallowQuant
+       (a clone aliases the quantisation table / its vectors).  A third of the partition networks is compiled with
+       --force-symmetric-int-weights.  Switched off because the UNCHANGED tree breaks them (c11fields.WEIGHT_CASES_OFF,
+       c11fields.NOSCALE_TABLES_OFF, FORCE_SYMMETRIC_KINDS_OFF below; reproductions under harness/repro/).
 C2S  : (a) the pass list recorded at build_pass_links / extract_subgraph is validated by PartitionTrace.tla
        with the predicates of Partition.tla; (b) source and output model are read by the plain flatbuffer
        parser (harness/flatmodel.py) and the pair is validated by PreserveTrace.tla: SameInterface,
@@ -37,10 +50,20 @@ ACCELS = ["ethos-u55-128", "ethos-u65-256", "ethos-u55-64", "ethos-u65-512", "et
 NPU1 = ["conv1", "conv3", "dw3", "maxpool", "avgpool", "tanh", "logistic", "lrelu", "add_dup", "relu"]
 NPU2 = ["add", "sub", "mul"]
 CPU1 = ["round", "custom1", "floordiv_dup", "conv_dil", "conv_asym", "float_island", "custom_2out", "l2norm",
-        "dw_m_bad", "tconv_faf", "tconv_s3"]
+        "dw_m_bad", "tconv_faf", "tconv_s3", "conv_asym_dil"]
 CPU2 = ["floordiv", "custom2", "min_qmismatch", "dwconv_dyn"]
 CPU1X = ["dwconv_dyn_x", "custom2", "pack_like_concat"]     # ifm + one non-ifm operand
 CPU2X = ["concat3", "addn3", "custom3"]                      # ifm, ifm2 + one further operand
+# CPU operators with two outputs (Partition.tla nout = 2): consumers read the first output or only the second one
+CPU1_2OUT = ["custom_2out", "custom_2out_b"]
+CPU2_2OUT = ["custom2_2out"]
+CPU1X_2OUT = ["custom2_2out"]
+CPU2X_2OUT = ["custom3_2out"]
+# CPU-resident operators of a TYPE the NPU has a block for (kept off for their parameters), and NPU operators the graph
+# optimiser can fold into their producer (activations turned into a look-up table / a fused clamp): the pair must stay two
+# operators when the producer is not on the NPU
+NPU_TYPE_ON_CPU = ("conv_dil", "conv_asym", "conv_asym_dil", "dw_m_bad")
+FOLDABLE_INTO_PRODUCER = ["tanh", "logistic", "lrelu", "relu"]
 MEMN = ["reshape_same", "reshape_pair"]
 MEMC = ["reshape_dyn", "reshape_qmismatch", "squeeze_qmismatch"]     # memory-only operators refused for the NPU
 
@@ -52,6 +75,7 @@ class Builder:
         self.H, self.W, self.C = rng.choice([(8, 8, 8), (6, 6, 16), (4, 4, 8), (5, 7, 8)])
         self.shape = [1, self.H, self.W, self.C]
         self.extra_outputs = []
+        self.second = {}          # node -> its second output tensor
         self.kinds = []
         self.nin = 0
 
@@ -108,6 +132,12 @@ class Builder:
             w = n.o[-1]["inputs"][1]
             n.t[w]["zp"] = [3] * len(n.t[w]["zp"])
             return y
+        if kind == "conv_asym_dil":     # asymmetric weights (per tensor) AND a dilated kernel taller than 64: stays on the CPU
+            y = n.conv(a, C, 3, dil=40, name=nm)       # whether or not --force-symmetric-int-weights is given
+            wt = n.t[n.o[-1]["inputs"][1]]
+            wt["scale"], wt["zp"] = [0.013], [rng.choice([3, -2, 5])]
+            wt.pop("qdim", None)
+            return y
         if kind == "dw_m_bad":      # depth multiplier 2 with IFM channels > 1: stays on the CPU
             y = n.dwconv(a, 3, name=nm + "_dw", mult=2)
             return n.conv(y, C, 1, name=nm, dil=70)
@@ -119,12 +149,15 @@ class Builder:
             n.op(rng.choice(["FLOOR", "CEIL", "ABS", "NEG"]), [f1], [f2])
             n.op("QUANTIZE", [f2], [y])
             return y
-        if kind == "custom_2out":
+        if kind in ("custom_2out", "custom_2out_b", "custom2_2out", "custom3_2out"):
             y = self.same_quant_out(a, nm)
             y2 = self.same_quant_out(a, nm + "_second")
-            n.op("CUSTOM", [a], [y, y2], custom_code="TwoOut", custom_options=[7, 7])
-            if rng.random() < 0.6:
-                self.extra_outputs.append(y2)
+            if kind == "custom_2out_b":     # the second output has a quantisation of its own
+                n.t[y2]["scale"], n.t[y2]["zp"] = [0.0371], [-4]
+            n.op("CUSTOM", [x for x in (a, b, c) if x is not None], [y, y2],
+                 custom_code={"custom_2out": "TwoOut", "custom_2out_b": "TwoOutB"}.get(kind, "TwoOutMany"),
+                 custom_options=[7, 7])
+            self.second[idx] = y2
             return y
         if kind == "floordiv":
             y = self.same_quant_out(a, nm)
@@ -201,18 +234,31 @@ class Builder:
         raise MachineryError("unknown node kind " + kind)
 
 
-def instantiate(g, rng, sd):
-    """g = {"n", "ifm": [[..]..], "extra": [[..]..], "plc": [..]} (1-based lists stored 0-based)."""
+# --force-symmetric-int-weights x operators whose "weights" are not constants: the UNCHANGED tree zeroes the zero point of
+# the tensor in the weights position BEFORE it knows that the operator stays on the CPU; for dynamic weights that tensor is
+# a feature map of the source graph (a network input, the result of a kept operator), which is then written with zero
+# point 0 (genuine finding of this check, reproduction harness/repro/c11_force_symmetric_peraxis.py, second part).  While this
+# entry exists, networks compiled with the option do not contain the kinds listed; delete it to generate them.
+FORCE_SYMMETRIC_KINDS_OFF = {}      # (dynamic weights under --force-symmetric-int-weights: repaired in /repo, finding T1)
+
+
+def instantiate(g, rng, sd, avoid=(), fixed=None):
+    """g = {"n", "ifm": [[..]..], "extra": [[..]..], "plc": [..]} (1-based lists stored 0-based).
+    avoid: node kinds not to use; fixed: {node: kind} chosen by the caller (single-operand kinds)."""
     b = Builder(rng, sd)
+    pick = lambda kinds: rng.choice([k_ for k_ in kinds if k_ not in avoid])
     in0 = b.graph_input()
     in1 = None
     outs = {}
     consumed = set()
+    consumed2 = set()          # nodes whose second output somebody reads
     kinds = []
     for i in range(1, g["n"] + 1):
         ifm = sorted(g["ifm"][i - 1])
         ext = sorted(g["extra"][i - 1])
         pl = g["plc"][i - 1]
+        two = g.get("nout", [1] * g["n"])[i - 1] == 2
+        snd = set(g.get("second", [[]] * g["n"])[i - 1])
 
         def tens(p, second=False):
             nonlocal in1
@@ -222,6 +268,9 @@ def instantiate(g, rng, sd):
                         in1 = b.graph_input()
                     return in1
                 return in0
+            if p in snd and p in b.second:      # this node reads the second output of p, and only that one
+                consumed2.add(p)
+                return b.second[p]
             consumed.add(p)
             return outs[p]
 
@@ -229,29 +278,38 @@ def instantiate(g, rng, sd):
         if len(ifm) == 2:
             ops.append(tens(ifm[1], second=(ifm[1] == 0)))
         if pl == "Npu":
-            kind = rng.choice(NPU1 if len(ops) == 1 else NPU2)
+            kind = pick(NPU1 if len(ops) == 1 else NPU2)
+            if len(ops) == 1 and ifm[0] != 0 and kinds[ifm[0] - 1] in NPU_TYPE_ON_CPU and rng.random() < 0.7:
+                kind = pick(FOLDABLE_INTO_PRODUCER)
         elif pl == "MemN":
-            kind = rng.choice(MEMN)
+            kind = pick(MEMN)
             ops = ops[:1]
         elif pl == "MemC":
-            kind = rng.choice(MEMC)
+            kind = pick(MEMC)
             ops = ops[:1]
         else:
-            if ext and rng.random() < 0.45:   # a data operand that is neither IFM nor IFM2
-                kind = rng.choice(CPU1X if len(ops) == 1 else CPU2X)
+            if ext and (rng.random() < 0.45 or ext[0] in snd):   # a data operand that is neither IFM nor IFM2
+                kind = pick((CPU1X_2OUT if two else CPU1X) if len(ops) == 1 else (CPU2X_2OUT if two else CPU2X))
                 ops.append(tens(ext[0]))
             elif len(ops) == 1 and ifm == [0] and rng.random() < 0.3:
-                kind = rng.choice(CPU2)          # binary CPU operator on two graph inputs
+                kind = pick(CPU2_2OUT if two else CPU2)          # binary CPU operator on two graph inputs
                 ops.append(tens(0, second=True))
+            elif two:
+                kind = pick(CPU1_2OUT if len(ops) == 1 else CPU2_2OUT)
             else:
-                kind = rng.choice(CPU1 if len(ops) == 1 else CPU2)
+                kind = pick(CPU1 if len(ops) == 1 else CPU2)
+        if fixed and i in fixed:
+            kind, ops = fixed[i], ops[:1]
         kinds.append(kind)
         first_new = len(b.n.o)
         outs[i] = b.node(i, kind, ops)
         if pl == "Cpu":          # operator versions are part of what must be preserved
             for o in b.n.o[first_new:]:
                 o["version"] = rng.choice([1, 1, 2, 3])
-    sinks = [outs[i] for i in range(1, g["n"] + 1) if i not in consumed]
+    # a second output nobody reads: a network output (mostly), or a dead result of the operator
+    b.extra_outputs += [t for i, t in sorted(b.second.items()) if i not in consumed2 and rng.random() < 0.6]
+    # a node of which only the second output is read: its first output is a network output or dead
+    sinks = [outs[i] for i in range(1, g["n"] + 1) if i not in consumed and (i not in consumed2 or rng.random() < 0.5)]
     extra = [outs[i] for i in range(1, g["n"] + 1) if i in consumed and rng.random() < 0.15]
     outputs = sinks + extra + b.extra_outputs
     rng.shuffle(outputs)
@@ -275,7 +333,7 @@ def graphs_from_tlc(run, n, sd, maxn):
         if not isinstance(last.get("n"), int) or last["n"] < 1:
             continue
         g = {"n": last["n"], "ifm": [sorted(x) for x in last["ifm"]], "extra": [sorted(x) for x in last["extra"]],
-             "plc": list(last["plc"])}
+             "plc": list(last["plc"]), "nout": list(last["nout"]), "second": [sorted(x) for x in last["second"]]}
         if last.get("phase") == "done":
             g["spec_runs"] = last.get("runs")
             g["spec_cseq"] = last.get("cseq")
@@ -575,6 +633,14 @@ def negative_controls(run):
     mut("result of a CPU operator changes type", "OperandTensors", operand_drop(4, "type", "INT16"), "tensors")
     mut("intermediate of a CPU operator loses its scale", "OperandTensors", operand_drop(6, "scale"), "tensors")
 
+    # partial quantisation tables and option-rewritten weights (Fields.tla: TableKept, CloneQuant)
+    mut("subgraph input keeps its scale but loses its zero point", "SameInterface",
+        lambda e: e["out"]["ins"][0][1].__setitem__(FI["zp"], ""), "tensors")
+    mut("subgraph output keeps its zero point but loses its scale", "SameInterface",
+        lambda e: e["out"]["outs"][0][1].__setitem__(FI["scale"], ""), "tensors")
+    mut("operand of a CPU operator loses its zero point only", "OperandTensors", operand_drop(1, "zp"), "tensors")
+    mut("zero point of the constant operand of a CPU operator zeroed", "OperandTensors", operand_drop(2, "zp", "77"), "tensors")
+
     def drop_inter(e):
         o = out_op(e, "CUSTOM:Mix")
         o["inter"] = []
@@ -638,6 +704,20 @@ def negative_controls(run):
     two = next(i for i, d_ in enumerate(e["decl"]) if len(d_) == 2 and e["pl"][i] == "Cpu")
     e["decl"][two] = e["decl"][two][:1]
     pm.append(("second output of a CPU pass not declared", "OutputsDeclared", e))
+    e = copy.deepcopy(gold["partition_island"])     # the two-output CPU pass behind a consumer of one of its outputs
+    m_ = len(e["pl"])
+    cons = next((i for i in range(m_) if (two + 1) in e["prod"][i]), None)
+    if cons is None:
+        raise MachineryError("golden island pass list: nobody reads the two-output CPU pass")
+    perm = list(range(m_))
+    perm.remove(two)
+    perm.insert(perm.index(cons) + 1, two)               # new order: position -> old index
+    new_of = {old: new for new, old in enumerate(perm)}
+    for f in ("pl", "na", "esc", "decl"):
+        e[f] = [e[f][old] for old in perm]
+    e["prod"] = [[new_of[q - 1] + 1 for q in e["prod"][old]] for old in perm]
+    e["has_runs"], e["runs"], e["cseq"] = False, [], []
+    pm.append(("two-output CPU pass moved behind its consumer", "TopoOrder", e))
     for k, (_, _, e) in enumerate(pm):
         e["t"] = k
     res2, viol2 = tlc.validate_traces("PartitionTrace", "PartitionTrace.cfg", [m_[2] for m_ in pm])
@@ -661,26 +741,54 @@ def _validate(module, cfg, events, timeout=1800):
 
 
 def model_check(run, tier):
-    res = tlc.must_ok(tlc.run("Partition", "Partition_MC.cfg", workers=16, coverage=True, timeout=900), "Partition MC")
-    run.add_mc("Partition(N<=4, all placements)", res)
-    for a in ("AddNode", "FilterTop", "SinkStep", "SinkDone", "Absorb", "Split"):
-        if res["actions"].get("Partition." + a, 0) == 0:
-            raise MachineryError("vacuity: action %s never taken" % a)
+    from concurrent.futures import ThreadPoolExecutor
+    acts = ("AddNode", "FilterTop", "SinkStep", "SinkDone", "Absorb", "Split")
+    plan = [("Partition_MC.cfg", "Partition(N<=4, all placements)", dict(workers=16, coverage=True, timeout=900)),
+            # CPU passes whose operator has two outputs, consumers of the first / of the second output only
+            ("Partition_MCMulti3.cfg", "Partition(N<=3, all placements, two-output CPU passes)",
+             dict(workers=4, coverage=True, timeout=900)),
+            ("Partition_Extra.cfg", None, dict(workers=2, timeout=600)),
+            ("Partition_FirstOut.cfg", None, dict(workers=2, timeout=600))]
+    if tier == "thorough":
+        plan.append(("Partition_MCMultiFull.cfg", "Partition(N<=4, all placements, two-output CPU passes)",
+                     dict(workers=8, coverage=True, timeout=2400, heap="10g")))
+    with ThreadPoolExecutor(len(plan)) as ex:
+        results = list(ex.map(lambda it: tlc.run("Partition", it[0], **it[2]), plan))
+    for (cfg, label, _), res in zip(plan, results):
+        if label is None:
+            continue
+        tlc.must_ok(res, "Partition MC " + cfg)
+        run.add_mc(label, res)
+        for a in acts:
+            if res["actions"].get("Partition." + a, 0) == 0:
+                raise MachineryError("vacuity: action %s never taken (%s)" % (a, cfg))
     if tier == "thorough":
         res5 = tlc.must_ok(tlc.run("Partition", "Partition_MC5.cfg", workers=16, coverage=True, timeout=2400, heap="10g"),
                            "Partition MC N=5")
         run.add_mc("Partition(N<=5, Cpu/Npu/MemN)", res5)
-    ctl = tlc.run("Partition", "Partition_Extra.cfg", workers=4, timeout=600)
+    ctl = results[2]
     if ctl["status"] != "invariant" or ctl.get("violated") != "TopoOrder":
         raise MachineryError("control: a CPU pass with a non-IFM operand must break TopoOrder in the model, got %s" % ctl["status"])
     run.add_mc("Partition(AllowExtra control: TopoOrder violated)", ctl)
+    ctl = results[3]
+    if ctl["status"] != "invariant" or ctl.get("violated") != "TopoOrder":
+        raise MachineryError("control: a sink rule that looks at the first output of a CPU pass only must break TopoOrder "
+                             "in the model, got %s" % ctl["status"])
+    run.add_mc("Partition(SinkSees = first control: TopoOrder violated)", ctl)
 
 
 FIELD_CONTROLS = [("Fields_SkipFalsy.cfg", "OptionRoundTrip", "option values that are zero / false are not written"),
                   ("Fields_Unknown.cfg", "OptionRoundTrip", "the serialiser table does not list the member"),
                   ("Fields_Filter.cfg", "OperandPositions", "omitted operands are filtered out of the input vector"),
                   ("Fields_FirstOut.cfg", "OutputsDeclared", "a pass declares only the first output of its operator"),
-                  ("Fields_CloneDrops.cfg", "TensorRoundTrip", "a clone of a tensor does not carry min / max")]
+                  ("Fields_CloneDrops.cfg", "TensorRoundTrip", "a clone of a tensor does not carry min / max"),
+                  ("Fields_TableBoth.cfg", "TensorRoundTrip", "a quantisation table with a scale but no zero point (or the "
+                                                              "reverse) is dropped by the reader"),
+                  ("Fields_SharedQuant.cfg", "WeightRoundTrip", "a clone of the weights shares the quantisation table with "
+                                                                "its source: --force-symmetric-int-weights rewrites a "
+                                                                "kept operator"),
+                  ("Fields_ShallowQuant.cfg", "WeightRoundTrip", "a clone of the weights owns its table but shares the zero "
+                                                                 "point vector (the unchanged tree: c11fields.WEIGHT_CASES_OFF)")]
 
 
 def field_lattice(run):
@@ -694,7 +802,7 @@ def field_lattice(run):
         cfg = item[0]
         return tlc.run("Fields", cfg, workers=1, coverage=(cfg == "Fields_MC.cfg"), timeout=300,
                        dump=dump if cfg == "Fields_MC.cfg" else None)
-    with ThreadPoolExecutor(6) as ex:
+    with ThreadPoolExecutor(8) as ex:
         results = list(ex.map(one, [("Fields_MC.cfg",)] + FIELD_CONTROLS))
     good = tlc.must_ok(results[0], "Fields MC")
     run.add_mc("Fields(all cases, policies of the compiler)", good)
@@ -708,7 +816,7 @@ def field_lattice(run):
     path = dump + ".dump" if os.path.exists(dump + ".dump") else dump
     states = c11fields.parse_dump(open(path).read())
     cases = [st["case"] for st in states if st.get("stage") == "src"]
-    if len(cases) < 50 or {c["sort"] for c in cases} != {"option", "operand", "output", "tensor"}:
+    if len(cases) < 50 or {c["sort"] for c in cases} != {"option", "operand", "output", "tensor", "weight"}:
         raise MachineryError("Fields.tla produced an implausible case lattice (%d cases)" % len(cases))
     return cases
 
@@ -720,7 +828,9 @@ def build_jobs(tier, sd, run):
     graphs = graphs_from_tlc(run, ngraphs, sd, 5 if quick else 6)
     jobs, meta = [], []
     for gi, g in enumerate(graphs):
-        net, kinds = instantiate(g, random.Random(sd * 7919 + gi), sd * 1000 + gi)
+        forced = gi % 3 == 2      # compiler options are part of the case space: none may show on what is kept
+        net, kinds = instantiate(g, random.Random(sd * 7919 + gi), sd * 1000 + gi,
+                                 avoid=FORCE_SYMMETRIC_KINDS_OFF if forced else ())
         if gi % 2:        # every other network also stores min / max on some of its feature maps
             net = c11fields.dress_minmax(net, random.Random(sd * 7919 + gi + 1))
         ncfg = 1 if quick else 2
@@ -729,14 +839,28 @@ def build_jobs(tier, sd, run):
                 opts = {"accel": ACCELS[gi % 2]}
             else:
                 opts = corpus.config_point(rng)
+            if forced:
+                opts = dict(opts, extra=["--force-symmetric-int-weights"])
             jobs.append({"id": len(jobs), "net": net, "opts": opts})
             meta.append({"family": "partition", "graph": g, "kinds": kinds, "opts": opts})
+    # ---- the chain  Npu -> Cpu -> Npu -> Npu  (a graph of Partition.tla) with every pair (CPU-resident operator of a type
+    # the NPU has a block for, NPU operator the optimiser can fold into its producer); thorough: every CPU x NPU kind
+    chain = {"n": 4, "ifm": [[0], [1], [2], [3]], "extra": [[], [], [], []], "plc": ["Npu", "Cpu", "Npu", "Npu"],
+             "nout": [1, 1, 1, 1], "second": [[], [], [], []]}
+    pairs = [(c, f) for c in (NPU_TYPE_ON_CPU if quick else CPU1) for f in (FOLDABLE_INTO_PRODUCER if quick else NPU1)]
+    for pi, (ck, fk) in enumerate(pairs):
+        net, kinds = instantiate(chain, random.Random(sd * 7919 + 100000 + pi), sd * 1000 + 500 + pi,
+                                 fixed={1: "conv1", 2: ck, 3: fk, 4: "conv1"})
+        opts = {"accel": ACCELS[(pi + sd) % (2 if quick else len(ACCELS))]}
+        jobs.append({"id": len(jobs), "net": net, "opts": opts})
+        meta.append({"family": "partition", "graph": chain, "kinds": kinds, "opts": opts})
     # ---- field level: the case lattice of Fields.tla bound to schema members / operators / tensors
     cases = field_lattice(run)
     nets, uninst = c11fields.plan(cases, tier, sd, random.Random(sd * 104729 + 3))
     for k, net in enumerate(nets):
         planned = net.pop("c11_cases")
         opts = {"accel": ACCELS[k % 2]} if quick or k % 2 == 0 else corpus.config_point(rng)
+        opts = dict(opts, **net.pop("c11_opts", {}))     # weight cases: the option of the case
         jobs.append({"id": len(jobs), "net": net, "opts": opts})
         meta.append({"family": "fields", "opts": opts, "cases": planned})
     run.cov["field_cases"] = {"lattice": len(cases), "without_instance": uninst,
@@ -795,7 +919,10 @@ def _main(run, tier):
             if ncpu and nnpu:
                 run.nontrivial((m["family"], tuple(m.get("kinds", [])), tuple(o["code"] for o in ev["out"]["ops"])))
             if m["family"] == "fields":
-                for key, what in m["cases"]:
+                kept_names = {o["outs"][0] for o in ev["out"]["ops"] if o["code"] != "CUSTOM:ethos-u" and o["outs"]}
+                for key, what, *opname in m["cases"]:
+                    if opname and opname[0] not in kept_names:
+                        continue        # a weight case counts when its convolution really stayed on the CPU
                     seen_cases.setdefault(key, what)
                     run.nontrivial(("fields", key))
                     if key.startswith("option|"):
@@ -841,13 +968,19 @@ def _main(run, tier):
     fc["not_observed"] = sorted(set(all_keys) - set(seen_cases))
     fc["by_sort"] = {srt: "%d/%d" % (len([k for k in seen_cases if k.startswith(srt + "|")]),
                                       len([k for k in all_keys if k.startswith(srt + "|")]))
-                     for srt in ("option", "operand", "output", "tensor")}
+                     for srt in ("option", "operand", "output", "tensor", "weight")}
     fc["option_members_bound"] = len(seen_members)
     fc["option_members_in_schema"] = sum(len(v) for v in c11fields.schema_members().values())
-    fc["tensor_classes_switched_off"] = dict(c11fields.TENSOR_CLASSES_OFF)
+    fc["tensor_classes_switched_off"] = dict(c11fields.TENSOR_CLASSES_OFF, **c11fields.NOSCALE_TABLES_OFF)
+    forced = [k for k in seen_cases if k.startswith("weight|force_symmetric|zp=nonzero")]
+    if jobs and len(pres) > len(jobs) // 2 and not forced:
+        raise MachineryError("vacuity: no convolution with asymmetric weights stayed on the CPU under "
+                             "--force-symmetric-int-weights")
+    fc["weight_cases_switched_off"] = {"|".join(k): v for k, v in c11fields.WEIGHT_CASES_OFF.items()}
+    fc["kinds_switched_off_under_force_symmetric"] = dict(FORCE_SYMMETRIC_KINDS_OFF)
     fc["option_values_switched_off"] = {"%s.%s=%r" % k: v for k, v in c11fields.OPTION_VALUES_OFF.items()}
     fc["option_members_switched_off"] = {"%s.%s" % k: v for k, v in c11fields.OPTION_MEMBERS_OFF.items()}
-    for srt in ("option", "operand", "output", "tensor"):
+    for srt in ("option", "operand", "output", "tensor", "weight"):
         if not [k for k in all_keys if k.startswith(srt + "|")]:
             raise MachineryError("field lattice has no %s case" % srt)
     run.cov["rule"] = ("graphs = final states of Partition.tla behaviours drawn by TLC -simulate (DAG x placement, extra "
